@@ -12,7 +12,7 @@ MANIFEST = dict(
     technique="Coq proof of leastness and expiry-iff for the state machine model (same development as C01); extracted model, "
               "extracted declarative reference search and an independent Go day-by-day oracle run against the real trigger"
               " + source-to-Gallina translation of internal/csm's node level proved equivalent to the model (SrcTie)",
-    text="Machine-checked for every well-formed expression, fixed offset within +-26h and prev in [0, MaxInt64]: no whole-second "
+    text="Machine-checked for every well-formed expression, fixed offset within +-26h and prev in [MinInt64, MaxInt64] (instants before 1970 included): no whole-second "
          "instant strictly between prev and the returned value satisfies the expression; Expired is returned iff no satisfying "
          "instant exists up to the int64-nanosecond limit (year field exhausted, day rule never matching again, result beyond "
          "2262); iterating enumerates every scheduled instant once and in order. The correspondence run compares the real "
